@@ -12,7 +12,7 @@ theorem parseParameterDeclBody_go_spec : ∀ fuel idList ewc, (hne : idList ≠ 
     T src Tr (parseParameterDeclBody.go r fuel idList ewc) (fun _ _ => True) := by
   intro fuel
   induction fuel with
-  | zero => intro idList ewc _; unfold parseParameterDeclBody.go; exact T.throw _ rfl
+  | zero => intro idList ewc _; unfold parseParameterDeclBody.go; exact T.throw _ (fun _ _ => trivial)
   | succ n ih =>
     intro idList ewc hne
     unfold parseParameterDeclBody.go
